@@ -97,6 +97,36 @@ Section Iri.
         end
     end.
 
+  (* ParseIRI, after the split: base58check-decode the hash part and read the fields *)
+  Definition parse_parts (hashPart ext : bytes) : result parse_err content_hash :=
+    match check_decode cksum hashPart with
+    | Err ErrInvalidFormat => Err PCheckFormat
+    | Err ErrChecksum => Err PChecksum
+    | Err ErrDecodePanic => Err PPanic
+    | Err ErrDecodeFuel => Err PFuel
+    | Ok (res, version) =>
+      match res with
+      | [] => Err PEOF
+      | typ :: r1 =>
+        if byte_N typ =? iri_prefix_raw then
+          match r1 with
+          | [] => Err PEOF
+          | b0 :: hash =>
+              if negb (byte_N version =? iri_version0) then Err PVersion
+              else Ok (ch_of_raw (mkRaw hash (byte_N b0) ext))
+          end
+        else if byte_N typ =? iri_prefix_graph then
+          if negb (bytes_eqb ext iri_parse_graph_ext) then Err PGraphExt
+          else match r1 with
+          | bC14NAlg :: bMtAlg :: bDigestAlg :: hash =>
+              if negb (byte_N version =? iri_version0) then Err PVersion
+              else Ok (ch_of_graph (mkGraph hash (byte_N bDigestAlg) (byte_N bC14NAlg) (byte_N bMtAlg)))
+          | _ => Err PEOF
+          end
+        else Err PUnknownType
+      end
+    end.
+
   (* ParseIRI *)
   Definition parse_iri (iri : bytes) : result parse_err content_hash :=
     match iri with
@@ -108,36 +138,9 @@ Section Iri.
         let parts := split_on (byte_of_N_trunc iri_parse_sep) hashExtPart in
         if negb (N.of_nat (List.length parts) =? iri_parse_parts) then Err PParts
         else match parts with
-        | hashPart :: ext :: _ =>
-          match check_decode cksum hashPart with
-          | Err ErrInvalidFormat => Err PCheckFormat
-          | Err ErrChecksum => Err PChecksum
-          | Err ErrDecodePanic => Err PPanic
-          | Err ErrDecodeFuel => Err PFuel
-          | Ok (res, version) =>
-            match res with
-            | [] => Err PEOF
-            | typ :: r1 =>
-              if byte_N typ =? iri_prefix_raw then
-                match r1 with
-                | [] => Err PEOF
-                | b0 :: hash =>
-                    if negb (byte_N version =? iri_version0) then Err PVersion
-                    else Ok (ch_of_raw (mkRaw hash (byte_N b0) ext))
-                end
-              else if byte_N typ =? iri_prefix_graph then
-                if negb (bytes_eqb ext iri_parse_graph_ext) then Err PGraphExt
-                else match r1 with
-                | bC14NAlg :: bMtAlg :: bDigestAlg :: hash =>
-                    if negb (byte_N version =? iri_version0) then Err PVersion
-                    else Ok (ch_of_graph (mkGraph hash (byte_N bDigestAlg) (byte_N bC14NAlg) (byte_N bMtAlg)))
-                | _ => Err PEOF
-                end
-              else Err PUnknownType
-            end
-          end
-        | _ => Err PParts
-        end
+             | hashPart :: ext :: _ => parse_parts hashPart ext
+             | _ => Err PParts
+             end
     end.
 End Iri.
 
